@@ -512,6 +512,9 @@ class Light(Device):
                 if all(
                     c.brightness.initialized for c in self._iter_individual_colors()
                 ):
+                    # raises ConversionError before anything is sent
+                    for value in (*color, white):
+                        self.red.brightness.to_knx(value)
                     self.red.brightness.set(color[0])
                     self.green.brightness.set(color[1])
                     self.blue.brightness.set(color[2])
@@ -526,6 +529,9 @@ class Light(Device):
                 if all(
                     c.brightness.initialized for c in (self.red, self.green, self.blue)
                 ):
+                    # raises ConversionError before anything is sent
+                    for value in color:
+                        self.red.brightness.to_knx(value)
                     self.red.brightness.set(color[0])
                     self.green.brightness.set(color[1])
                     self.blue.brightness.set(color[2])
@@ -551,6 +557,9 @@ class Light(Device):
         if not self.supports_hs_color:
             logger.warning("HS-color not supported for device %s", self.get_name())
             return
+        # raises ConversionError before anything is sent
+        self.hue.to_knx(hs_color[0])
+        self.saturation.to_knx(hs_color[1])
         value_sent = False
         if (hue := hs_color[0]) != self.hue.value:
             self.hue.set(hue)
